@@ -584,6 +584,8 @@ def valid(m, op):
         return bool(m.hybrid)
     if k == 'dup_pvd':
         return True
+    if k == 'new_again':
+        return False
     if k == 'set_relocated_name':
         return bool(m.rr) and m.rr_moved_name is None
     return True
